@@ -660,6 +660,9 @@ CORPUS = [
     # F6  C16/C17
     case("corpus-F6-box", cfg(V="box", P=[hx(b"a static string of thirty-five bytes")]), ["NR 4096 max 0 1", "IS 0 0", "R 0 0", "CUR 0"]),
     case("corpus-F6-dyn", cfg(V="dyn", P=[hx(b"a static string of thirty-five bytes")]), ["NT 8 8 0 1", "IS 0 0", "R 0 0", "CUR 0"]),
+    # F7  C04: a first bucket no Layout can describe (capacity 2^63) is a failed allocation, not an unchecked Layout
+    case("corpus-F7-rodeo", cfg(), ["NR 9223372036854775808 max 0 1", "NR 8 max 0 1", f"I 0 {hx(b'a')}", "CUR 0"]),
+    case("corpus-F7-threaded", cfg(), ["NT 9223372036854775808 max 0 1", "NT 8 max 0 1", f"I 0 {hx(b'a')}", "CUR 0"]),
 ]
 
 def corpus():
